@@ -929,6 +929,36 @@ impl DdlExecutor {
                     return Err(RuntimeError::Schema(SchemaError::DuplicatePrimaryKey));
                 }
 
+                // PRIMARY KEY makes its columns NOT NULL: rows that already hold NULL in one of them
+                // would contradict the constraint (as for ALTER COLUMN SET NOT NULL)
+                for &index in col_indices {
+                    let column_name = relation
+                        .schema()
+                        .column(index)
+                        .ok_or(SchemaError::ColumnIndexOutOfBounds(index))?
+                        .name()
+                        .to_string();
+                    let validator = ConstraintValidator::new(
+                        relation.schema(),
+                        column_name.clone(),
+                        self.ctx.clone(),
+                    );
+                    if validator.search_table(
+                        relation.object_id(),
+                        &[index],
+                        &[DataType::Null],
+                        false,
+                        &HashSet::new(),
+                    )? {
+                        return Err(RuntimeError::ValidationError(
+                            ValidationError::NonNullConstraintViolated(DatabaseItem::Column(
+                                relation.name().to_string(),
+                                column_name,
+                            )),
+                        ));
+                    }
+                }
+
                 {
                     let schema_mut = relation.schema_mut();
                     if let Some(constraints) = schema_mut.table_constraints.as_mut() {
